@@ -216,10 +216,13 @@ def conv_case(draw, eri):
     convs = []
     for s in case["shells"]:
         l = s["l"]
-        cart = draw(st.permutations(r4.default_cart(l)))
-        lab = draw(st.permutations(r4.default_sph(l)))
-        lab = [("-" if draw(st.booleans()) else "") + x for x in lab]
-        convs.append(([list(c) for c in cart], lab))
+        # each ingredient is changed independently: an fchk-style shell differs from the default ONLY in its Cartesian
+        # order, an ORCA-style one only in signs - combinations that a jointly-permuted convention never produces
+        cart = draw(st.permutations(r4.default_cart(l))) if draw(st.booleans()) else r4.default_cart(l)
+        lab = draw(st.permutations(r4.default_sph(l))) if draw(st.booleans()) else r4.default_sph(l)
+        if draw(st.booleans()):
+            lab = [("-" if draw(st.booleans()) else "") + x for x in lab]
+        convs.append(([list(c) for c in cart], list(lab)))
     case["convs"] = convs
     return case
 
@@ -286,6 +289,9 @@ def _conv_enum_cases(shard):
                 yield {"shells": shells, "env": env, "transform": np.eye(n).tolist(), "G": G, "eri": False,
                        "convs": [([list(c) for c in cart], r4.default_sph(l)), (r4.default_cart(0), r4.default_sph(0))]}
         else:
+            for cart in itertools.permutations(r4.default_cart(l)):  # spherical shell, only the Cartesian order differs
+                yield {"shells": shells, "env": env, "transform": np.eye(n).tolist(), "G": G, "eri": False,
+                       "convs": [([list(c) for c in cart], r4.default_sph(l)), (r4.default_cart(0), r4.default_sph(0))]}
             for perm in itertools.permutations(r4.default_sph(l)):
                 for signs in itertools.product(("", "-"), repeat=len(perm)):
                     yield {"shells": shells, "env": env, "transform": np.eye(n).tolist(), "G": G, "eri": False,
